@@ -325,6 +325,9 @@ func parent(id, tier string) int {
 	if tier == "thorough" {
 		timeout = 3 * time.Hour
 	}
+	if ct, ok := p.(interface{ ChildTimeout(tier string) time.Duration }); ok {
+		timeout = ct.ChildTimeout(tier)
+	}
 	if s := os.Getenv("VERIF_CHILD_TIMEOUT_S"); s != "" {
 		if v, err := strconv.Atoi(s); err == nil {
 			timeout = time.Duration(v) * time.Second
